@@ -1219,7 +1219,12 @@ func (s *Server) handleInputCommand(client *Client, msg *Message) error {
 					password = msg.Args[1]
 				}
 			}
-			if s.config.requirePass() != strings.TrimSpace(password) {
+			if msg.Auth != "" {
+				// from an HTTP header, which may come padded
+				password = strings.TrimSpace(password)
+			}
+			if s.config.requirePass() != password {
+				nolabel = true
 				return writeErr("invalid password")
 			}
 			client.authd = true
